@@ -624,6 +624,68 @@ def corr_smarts(ck, cs):
             ck.count(f'smarts:pcomps={min(len(q._compiled_query[0]), 3)}:{"hit" if got else "miss"}')
 
 
+POLY_TARGETS = ['C1C23C(C12)C3', 'C12C3C4C1C5C2C3C45', 'C1CC2CC12', 'C12CC1C2', 'C1CC2CCC1C2', 'C1C2CC3CC1CC(C2)C3', 'C12C3C1C23', 'c1ccc2ccccc2c1',
+                'C1CC2(C1)CCC2', 'C12C3C4C1C5C4C3C25', 'C1CC2CC1C2', 'C1C2C3CC1C23', 'C1CC23CC2CC13', 'O1C2CC1C2', 'C1CC2C1CC2', 'C1CC2CC3CC1C23',
+                'N1C2CC1C2', 'C1C2C1C1CC21', 'C1CC2C3CCC(C3)C2C1', 'O=C1C2CC1C2']
+RING_QUERIES = ['C1CCC1', 'C1CC1', 'C1CCCC1', 'C1CCCCC1', '[#6]1[#6][#6][#6]1', '[A]1[A][A]1', '[A]1[A][A][A]1', 'C1CC2CC12', 'C1CC2CCC1C2',
+                '[#6]1~[#6]~[#6]~[#6]~1', 'C1C2CC12', 'C1CCC2CC2C1', 'C1CC2CC2C1', '[A]1[A][A][A][A]1', 'C1C[A]C1', '[C;D3]1[A][A]1', 'C1CC1C', 'C1CCC1C']
+
+
+def accelerated_module(ck):
+    """the transpiled accelerated matcher installed as chython.algorithms._isomorphism (harness/iso_pyx.py): the DEFAULT path of
+    QueryContainer.get_mapping; None (and the tie reported broken) when the .pyx has a shape the transpiler does not know"""
+    try:
+        import iso_pyx
+        return iso_pyx.inject()
+    except Exception as e:  # noqa
+        ck.unchecked('accelerated matcher _isomorphism.pyx could not be transpiled (harness/iso_pyx.py)', f'tie-broken: {type(e).__name__}: {e}')
+        return None
+
+
+def tab_model_expr(q, t, flt, scope, got):
+    """the model call for a query pattern: atoms / bonds named by integers, matched through truth tables from the independent evaluators"""
+    tb_id = {}
+    for n, ms in t._bonds.items():
+        for m in ms:
+            tb_id.setdefault(frozenset((n, m)), len(tb_id) + 1)
+    qb_id = {}
+    for n, ms in q._bonds.items():
+        for m in ms:
+            qb_id.setdefault(frozenset((n, m)), len(qb_id) + 1)
+    atab = [(qn, tn) for qn, qa in q._atoms.items() for tn, ta in t._atoms.items() if own_or_lib_atom(qa, t, tn)]
+    btab = [(qb_id[qk], tb_id[tk]) for qk in qb_id for tk in tb_id if own_or_lib_bond(q._bonds[min(qk)][max(qk)], t, min(tk), max(tk))]
+    tc = [sorted(c) for c in t.connected_components]
+    qat = lst([tup(zraw(n), zraw(n)) for n in q._atoms])
+    qbt = lst([tup(zraw(n), lst([tup(zraw(m), zraw(qb_id[frozenset((n, m))])) for m in ms])) for n, ms in q._bonds.items()])
+    tat = lst([tup(zraw(n), zraw(n)) for n in t._atoms])
+    tbt = lst([tup(zraw(n), lst([tup(zraw(m), zraw(tb_id[frozenset((n, m))])) for m in ms])) for n, ms in t._bonds.items()])
+    pr = lambda tab: lst([tup(zraw(x), zraw(y)) for x, y in tab])
+    return (f'pyres_eqb maps_eqb (tab_get_mapping {pr(atab)} {pr(btab)} {qat} {qbt} {tat} {tbt} {zll(tc)} {b(flt)} {scope_term(scope)}) '
+            f'(Ok {maps_term(got)})')
+
+
+def corr_accelerated(ck, cs):
+    """the DEFAULT path of QueryContainer.get_mapping (the accelerated bit-mask matcher of _isomorphism.pyx, run through the transpiler) on
+    ring-closing queries and polycyclic / bridged targets: the sequence of mappings against the same Coq model"""
+    from chython import smiles, smarts
+    if accelerated_module(ck) is None:
+        return
+    rng = random.Random(f'{ck.seed}:accel')
+    qs = [(x, smarts(x)) for x in RING_QUERIES]
+    for ttxt in POLY_TARGETS:
+        t = smiles(ttxt)
+        for s_, q in (rng.sample(qs, 6) if ck.tier == 'quick' else qs):
+            flt = rng.random() < .5
+            scope = None if rng.random() < .8 else [x for x in t._atoms if rng.random() < .8]
+            got, err = drain_partial(itertools.islice(q.get_mapping(t, automorphism_filter=flt, searching_scope=scope), 121))
+            if err is not None or len(got) > 120:
+                ck.count('accelerated:skipped')
+                continue
+            cs.add(tab_model_expr(q, t, flt, scope, got), ('QueryContainer.get_mapping (accelerated path)', s_, ttxt, flt, scope))
+            ck.case(('accel', s_, ttxt, flt, None if scope is None else tuple(scope)), nontrivial=bool(got))
+            ck.count(f'accelerated:corr:{"hit" if got else "miss"}')
+
+
 def corr_automorphism(ck, cs):
     from chython import smiles
     from chython.algorithms.isomorphism import _get_automorphism_mapping
@@ -872,6 +934,7 @@ def correspondence(ck):
     corr_automorphism(ck, cs)
     corr_stereo(ck, cs)
     corr_match_stereo(ck, cs)
+    corr_accelerated(ck, cs)
     ok, failing, log = coqcases.run_cases('c07', 'Iso Graph IsoStereo', cs.exprs, shard=250, extra='From Proofs Require Import IsoProofs IsoExt IsoMatchStereo IsoCC.')
     good = ok and not failing
     ck.oblige('correspondence: lazy_product, _compile_query, _get_mapping, Isomorphism._get_mapping (sequence of mappings, order included), '
@@ -1621,6 +1684,52 @@ def search_self_text(ck):
                                     'print([a.stereo for _, a in t.atoms()], [a.stereo for _, a in q.atoms()], list(q.get_mapping(t, _cython=False)))')
 
 
+def search_accelerated(ck):
+    """the public get_mapping of query patterns on its DEFAULT path (accelerated matcher, transpiled) against the brute-force enumerator:
+    ring-closing queries on polycyclic, bridged, chord-rich targets (where a stale closure table or a wrong closure count shows), plus
+    the operators, which use the same path"""
+    from chython import smiles, smarts
+    if accelerated_module(ck) is None:
+        return
+    rng = random.Random(f'{ck.seed}:search-accel')
+    qs = [(x, smarts(x)) for x in RING_QUERIES + ['[#6]-;@[#6]', '[#6]-;!@[#6]', 'C1CC1CC', '[A;h0]1[A][A]1', 'CC', '[A][A]([A])[A]']]
+    targets = [(x, smiles(x)) for x in POLY_TARGETS]
+    pool = [m for m in mol_pool(ck, 30 if ck.tier == 'quick' else 300, 24, 'c07-accel') if len(m.sssr) >= 2][:10 if ck.tier == 'quick' else 100]
+    targets += [(str(m), m) for m in pool]
+    pre = 'import iso_pyx; iso_pyx.inject(); from chython import smiles, smarts; '
+    for ttxt, t in targets:
+        if any(a.implicit_hydrogens is None for a in t._atoms.values()):
+            continue                                        # the library itself takes the reference path for such molecules
+        for s_, q in qs:
+            ref = brute(q, t)
+            refset = {key_of(m) for m in ref}
+            ck.case(('search-accel', s_, ttxt), nontrivial=bool(ref))
+            ck.count(f'search:accelerated:{"hit" if ref else "miss"}')
+            got, err = drain(q.get_mapping(t, automorphism_filter=False))
+            gk = None if got is None else [key_of(m) for m in got]
+            if gk is None or set(gk) != refset or len(gk) != len(set(gk)):
+                ck.counterexample(f'accelerated:{s_}>{ttxt}', 'get_mapping on its default (accelerated) path is not exactly the set of valid embeddings',
+                                  {'smarts': s_, 'target': ttxt}, err or sorted(gk), sorted(refset), 'brute-force enumeration of injective maps',
+                                  replay_py=pre + f'q = smarts({s_!r}); t = smiles({ttxt!r}); '
+                                                  'print(list(q.get_mapping(t, automorphism_filter=False)), list(q.get_mapping(t, automorphism_filter=False, _cython=False)))')
+                continue
+            gf, err = drain(q.get_mapping(t))
+            imf = None if gf is None else [frozenset(m.values()) for m in gf]
+            if imf is None or len(imf) != len(set(imf)) or set(imf) != {frozenset(m.values()) for m in ref}:
+                ck.counterexample(f'accelerated-filter:{s_}>{ttxt}', 'get_mapping (accelerated path, automorphism filter) loses / duplicates an image set',
+                                  {'smarts': s_, 'target': ttxt}, err or sorted(map(sorted, imf)), sorted({tuple(sorted(m.values())) for m in ref}),
+                                  'brute-force enumeration of injective maps', replay_py=pre + f'print(list(smarts({s_!r}).get_mapping(smiles({ttxt!r}))))')
+            for name, fn in (('is_substructure', lambda: q.is_substructure(t)), ('<=', lambda: q <= t)):
+                try:
+                    v = fn()
+                except Exception as e:  # noqa
+                    v = type(e).__name__
+                if v is not bool(ref):
+                    ck.counterexample(f'accelerated-operator:{name}:{s_}>{ttxt}', f'{name} (accelerated path) disagrees with the set of embeddings',
+                                      {'smarts': s_, 'target': ttxt}, v, bool(ref), 'brute-force enumeration',
+                                      replay_py=pre + f'print(smarts({s_!r}).is_substructure(smiles({ttxt!r})))')
+
+
 def search_match_stereo(ck):
     """pattern.get_mapping(target, match_stereo=True, automorphism_filter=False) against RDKit: the pattern molecule as RDKit query with
     useChirality=True (re-filtered to induced matches), on comparable pairs only (connected pattern without allene centres, every
@@ -1843,6 +1952,7 @@ def search(ck):
     search_lazy_product(ck, 200 if ck.tier == 'quick' else 3000)
     search_automorphism(ck, [('C.C', smiles('C.C'))] + targets)
     search_primitive_grid(ck)
+    search_accelerated(ck)
     search_stereo(ck)
     search_match_stereo(ck)
     search_self_text(ck)
@@ -1854,7 +1964,8 @@ def run(ck):
     ck.trusted += ['translator tools/gen_isoops.py (Python ast: operators, call directions, filter arguments, scope tests, component split, loop exits of isomorphism.py)',
                    'correspondence runner harness/checks/C07.py + harness/coqcases.py + harness/coqmol.py', 'CachedMethods shim harness/boot.py',
                    'CPython 3.12.1', 'brute-force reference enumerator and own primitive evaluators in harness/checks/C07.py (search only)',
-                   'RDKit 2026.3 SMARTS matcher (search only, common sub-language)']
+                   'RDKit 2026.3 SMARTS matcher (search only, common sub-language)',
+                   'transpiler harness/iso_pyx.py (the accelerated matcher _isomorphism.pyx run as Python; C09 owns its model, C07 only searches through it)']
     ck.assumptions += [
         'coq/model/Iso.v is a hand-written model of lazy_product, _compile_query, _get_mapping (recursive form of the explicit-stack loop), '
         'Isomorphism._get_mapping, is_substructure/is_equal/</<= and _get_automorphism_mapping; the tie is the correspondence of the whole '
